@@ -178,12 +178,16 @@ func getMinIntType(
 		minimum, maximum, exclusiveMinimum, exclusiveMaximum,
 	)
 
+	// Work on copies: the normalized bounds may point at the schema's own minimum/maximum,
+	// which the validators still need unchanged.
 	if nExclusiveMin && nMin != nil {
-		*nMin += 1.0
+		v := *nMin + 1.0
+		nMin = &v
 	}
 
 	if nExclusiveMax && nMax != nil {
-		*nMax -= 1.0
+		v := *nMax - 1.0
+		nMax = &v
 	}
 
 	if nMin != nil && *nMin >= 0 {
